@@ -1,3 +1,4 @@
+import re
 """C18 — resource names are parsed canonically (writer/reader agreement of the name grammar)."""
 from engine import rule, CheckBroken
 from common import short_ty
@@ -198,8 +199,12 @@ def r18_3(prog, out):
             else:
                 break
         key = "map-key:%s.%s" % (k, f)
+        generic = prog.facts.adt(fty.split("<")[0]) if fty.startswith("crate::") and "<" in fty else None
         if fty.startswith("std::collections::HashMap<%s," % nt) or fty.startswith("std::collections::BTreeMap<%s," % nt):
             out.holds(key, "", "keyed by %s" % short_ty(nt))
+        elif generic is not None and nt in fty and any(re.match(r"^std::collections::(HashMap|BTreeMap)<[A-Z]\w*,", f2["ty"]) for v in generic["variants"] for f2 in v["fields"]):
+            out.undecided(key, generic.get("span", ""), "%s.%s is a generic container of the crate instantiated with %s whose map is keyed by a type parameter: which "
+                          "parameter is not resolved here" % (k, f, short_ty(nt)))
         else:
             out.violation(key, "", "%s.%s is %s: not keyed by the parsed name type" % (k, f, short_ty(fty)))
 
